@@ -24,13 +24,31 @@ def _p(v, P=None):
         s = s[:-1]
     if P is not None and ('/../' in s + '/' or '/./' in s + '/' or s.startswith('./') or s.startswith('../')):
         s = _resolve(P, s)
+    elif P is not None and P.state.get('symlinks'):
+        s = _follow_links(P, s)
+    return s
+
+
+def _follow_links(P, s):
+    """P.state['symlinks']: {link path: target path} (directory links); longest link prefix first"""
+    links = P.state.get('symlinks') or {}
+    for _ in range(8):
+        hit = None
+        for l in sorted(links, key=len, reverse=True):
+            if s == l or s.startswith(l + '/'):
+                hit = l
+                break
+        if hit is None:
+            return s
+        s = links[hit] + s[len(hit):]
     return s
 
 
 def _resolve(P, s):
-    """resolve . and .. the way the OS does on a file system without symbolic links: `x/..` is the
-    parent only if x is an existing directory; otherwise the path does not exist"""
+    """resolve . and .. the way the OS does: `x/..` is the parent only if x is an existing directory;
+    otherwise the path does not exist.  Symbolic links of P.state['symlinks'] are followed."""
     fs = _fs(P)
+    s = _follow_links(P, s)
     if not s.startswith('/'):
         s = P.state.get('cwd', '/') .rstrip('/') + '/' + s
     out = []
